@@ -6,6 +6,14 @@ props = [json.loads(l) for l in open(os.path.join(V, 'properties.jsonl'))]
 
 # id -> (level, engine, technique, level text, level note, design_ref)
 CHECKS = {
+ 'C02': ('model_checking', 'E2-seq + E1-sched', 'exhaustive product + all Put histories (depth<=3) on the real cafs with an independent Python BLAKE2b tree oracle; stateless DFS over all completion orders of parallel leaf flushes and over 2-client interleavings (preemption-bounded)',
+         'Keys of every enumerated (content, leaf size) are recomputed by CPython hashlib.blake2b in tree mode (validated on the docs/blake2.md examples); key independence from chunking / flush concurrency / store content / flush completion order is decided by exhaustive enumeration, not sampling.',
+         'Content alphabet is structured patterns; flush orders explored for up to 4-5 full leaves; concurrent Puts bounded to 2 (thorough 3) preemptions.',
+         'DESIGN.md §3 C02'),
+ 'C03': ('fault_enumeration', 'E2-seq', 'exhaustive single-blob corruption enumeration x every read style on the real cafs and core.Publish',
+         'Every single-object corruption in the stated classes (each bit-flip position, each truncation length, extension, deletion, each replacement blob) of every blob of objects with 1..6 leaves is applied and observed through every read style and a full bundle download.',
+         'Single corruption at a time; L=64; sequential streams may hand out bytes of a damaged leaf before failing (the stream as a whole must fail); download destinations are afero MemMapFs-backed localfs and a map store.',
+         'DESIGN.md §3 C03'),
  'C01': ('exploration', 'E2-seq', 'bounded-exhaustive product enumeration of (leaf size, length, pattern, source chunking, flush concurrency) x complete read battery on the real cafs, worker subprocesses with hang/fatal detection',
          'Complete finite product at L=64 (every length 0..3L+1, every chunk size 1..2L+1, single write, 32 KiB writes, flush concurrency 1/2/3/16) plus boundary lengths at L=65/100/4096/1MiB/1.5MiB/5MiB; every read style at every offset / buffer size; no sampling.',
          'Contents are three structured patterns, not arbitrary bytes (cafs never branches on byte values). Backing store is the reference in-memory store delivering blobs in several Read calls (both EOF shapes).',
